@@ -51,7 +51,7 @@ theorem started_iff_no_start_fault (c : Cfg) (r : Result) (h : runForever c = so
 theorem async_before_sync (c : Cfg) (r : Result) (h : runForever c = some r) :
     ∃ pre post, r.trace = pre ++ post ∧
       (∀ k, Ev.stop k ∈ pre → (blk c.blocks k).asyncStop = true) ∧
-      (∀ e ∈ post, (∃ k, e = .stop k ∧ (blk c.blocks k).asyncStop = false) ∨ ∃ k, e = .out k true) := by
+      (∀ e ∈ post, (∃ k, e = .stop k ∧ (blk c.blocks k).asyncStop = false) ∨ ∃ k b, e = .out k b) := by
   cases hb : c.cause.before with
   | true =>
     obtain ⟨h1, _⟩ := nothing_started_when_aborted_before c r h hb
@@ -73,11 +73,11 @@ theorem async_before_sync (c : Cfg) (r : Result) (h : runForever c = some r) :
       simp only [setA, List.mem_filter] at this
       exact this.2
     · intro e he
-      rcases stopSyncAll_mem _ _ _ e he with ⟨k, hk, rfl⟩ | ⟨k, _, rfl⟩
+      rcases stopSyncAll_mem _ _ _ e he with ⟨k, hk, rfl⟩ | ⟨k, b, rfl⟩
       · have := (sp.permS.mem_iff).1 hk
         simp only [setS, List.mem_filter, Bool.not_eq_true'] at this
         exact .inl ⟨k, rfl, this.2⟩
-      · exact .inr ⟨k, rfl⟩
+      · exact .inr ⟨k, b, rfl⟩
 
 /-- `stop_async_awaited_bounded` (1): stop_async is begun and ended exactly once for exactly the
     started blocks with asynchronous clean-up, after all their stop() calls (`pre` holds them,
@@ -235,12 +235,19 @@ theorem helper_lives_no_longer_than_call (c : Cfg) (r : Result) (h : runForever 
         simp only [helperSpanOf] at hab
         cases hw : c.waiter <;> cases hi : (plan c).initEnd <;> simp [hw, hi] at hab <;> omega
 
-/-- `stop_data_last` (OutputFunc): for a started OutputFunc block with stop_data the calls of its
-    output function end with the stop_data call, and that is the only stop_data call – for every
-    fault script, cause and stop order -/
-theorem stop_data_last (c : Cfg) (r : Result) (h : runForever c = some r) (hb : c.cause.before = false)
+/-
+Full statement: the same without `hno`.  It is FALSE for the code (known finding
+C08-outputfunc-event-after-stop, mirrored by the model's `chain`): when another OutputFunc `j` with
+stop_data has `on_success = Event(k)` and `k` is stopped before `j`, `k`'s function is called with the
+result of `j`'s stop_data after `k`'s own stop_data -- see `stop_data_not_last_in_a_chain` below.
+-/
+/-- `stop_data_last` (OutputFunc): for a started OutputFunc block with stop_data that is not the
+    destination of another stop_data OutputFunc's on_success event (`NoStopDataSender`), the calls of
+    its output function end with the stop_data call, and that is the only stop_data call – for
+    every fault script, cause and stop order -/
+theorem stop_data_last_partial (c : Cfg) (r : Result) (h : runForever c = some r) (hb : c.cause.before = false)
     (k : Nat) (hk : k ∈ r.started) (hf : (blk c.blocks k).kind = .outf)
-    (hsd : (blk c.blocks k).stopData = true) :
+    (hsd : (blk c.blocks k).stopData = true) (hno : NoStopDataSender c.blocks k) :
     ∃ pre, outsOf k r.trace = pre ++ [true] ∧ ∀ x ∈ pre, x = false := by
   have sp := run_spec c r h hb
   obtain ⟨ks, hks, _⟩ := plan_puts c
@@ -256,7 +263,47 @@ theorem stop_data_last (c : Cfg) (r : Result) (h : runForever c = some r) (hb : 
   rw [sp.trace, stopSblocks_trace, hks, plan_startEvs]
   simp only [outsOf_append, (startLoop_stops 0 c.blocks).2.2.2 k, outsOf_seg1, outsOf_seg3, outsOf_seg4,
     outsOf_seg2_ne c.blocks (plan c).inited c.oa k (by rw [hf]; decide), List.nil_append, List.append_nil]
-  rw [seg5, outsOf_stopSyncAll_mem _ _ _ k hnd hmem hf hsd]
+  rw [seg5, outsOf_stopSyncAll_mem _ _ _ k hnd hmem hf hsd hno]
+
+/-- … and the known finding, as the model has it: OutputFunc 1 (stop_data, on_success -> block 0),
+    OutputFunc 0 (stop_data) stopped first: block 0's function is called once more after its stop_data -/
+example : ∃ r, runForever
+    { blocks := [{ kind := .outf, stopData := true }, { kind := .outf, stopData := true, onSuccess := some 0 }],
+      cause := { kind := .shutdown, time := 205 }, oa := [], os := [0, 1] } = some r ∧
+    outsOf 0 r.trace = [false, false, true, false] ∧ stops r.trace = [0, 1] := by
+  refine ⟨_, rfl, ?_⟩
+  decide +kernel
+
+/-- `caller_cancel_does_not_reach_cleanup`: a SECOND termination cause that arrives while the
+    clean-up is in progress – the task awaiting `shutdown()` is cancelled (directly, or by `run()`
+    because another supporting coroutine returned or failed), `abort()`, SIGTERM, another
+    `shutdown()` – at whatever instant, changes nothing of the run: the clean-up plan is the same,
+    hence (`stop_exactly_started`) every started block is still stopped exactly once.  The reason is
+    `Second.cancelsSimtask`: none of them cancels the simulation task (the repaired `shutdown()`
+    does not forward its caller's cancellation: `translated_errreg_shutdown_caller_cancel_not_forwarded`) -/
+theorem caller_cancel_does_not_reach_cleanup (c : Cfg) (x : Option (Second × Nat)) :
+    runForever { c with cause := { c.cause with second := x } } = runForever c ∧
+    ∀ r, runForever { c with cause := { c.cause with second := x } } = some r →
+      (stops r.trace).Perm (starteds r.trace) := by
+  have hp : plan { c with cause := { c.cause with second := x } } = plan c := rfl
+  have h1 : runForever { c with cause := { c.cause with second := x } } = runForever c := by
+    unfold runForever
+    simp only [hp]
+    cases c.cause.before
+    · simp only [Bool.false_eq_true, if_false]
+      unfold finish
+      simp only [second_any_false]
+      rfl
+    · rfl
+  exact ⟨h1, fun r hr => (stop_exactly_started _ r hr).1⟩
+
+/-- non-vacuity: the caller of shutdown() is cancelled 52 ms into a clean-up that takes 200 ms -/
+example : ∃ r, runForever
+    { blocks := [{ kind := .aplain, stopDur := 200, stopTimeout := 1003 }, {}],
+      cause := { kind := .shutdown, time := 205, second := some (.callerCancel, 52) }, oa := [0], os := [1] } = some r ∧
+    stops r.trace = [0, 1] ∧ r.endTime = 405 ∧ r.tasks = [] := by
+  refine ⟨_, rfl, ?_⟩
+  decide +kernel
 
 /-- `no_restart_no_modify`: when run_forever has finished – for whatever reason – the
     simulation task is done and `_error` is set: a second run_forever() and any modification of
